@@ -272,13 +272,19 @@ func (m *Model) noteGen(typ, tk string, ts int64) {
 	m.genTs[k] = append(m.genTs[k], ts)
 }
 
-// GenCollision: was an EARLIER generation of the key created at exactly ts?
-// (the stored generation number is the creating entry's log timestamp:
-// rockredis/t_ttl_compact.go renewOnExpired "oldh.ValueVersion = ts")
-func (m *Model) GenCollision(typ, tk string, ts int64) bool {
+// GenCollision: was the CURRENT generation of the key created at exactly the
+// log timestamp at which an earlier generation of it had been created? (the
+// stored generation number is the creating entry's log timestamp:
+// rockredis/t_ttl_compact.go renewOnExpired "oldh.ValueVersion = ts"; the two
+// generations then share their element keys)
+func (m *Model) GenCollision(typ, tk string) bool {
 	g := m.genTs[typ+"|"+tk]
+	if len(g) < 2 {
+		return false
+	}
+	cur := g[len(g)-1]
 	for i := 0; i+1 < len(g); i++ {
-		if g[i] == ts {
+		if g[i] == cur {
 			return true
 		}
 	}
